@@ -6,3 +6,10 @@ import InToto.Properties.C14
 #print axioms InToto.C14.unstartable_command_is_an_error
 #print axioms InToto.C14.sequential_drain_can_deadlock
 #print axioms InToto.C14.exit_code_table
+#print axioms InToto.C14.descendants_returned_means_complete
+#print axioms InToto.C14.descendants_concurrent_drain_never_stuck
+#print axioms InToto.C14.descendants_every_run_is_finite
+#print axioms InToto.C14.returns_only_after_every_holder_closed
+#print axioms InToto.C14.a_live_descendant_holds_the_call_open
+#print axioms InToto.C14.no_descendants_agrees_with_single_writer
+#print axioms InToto.C14.sequential_drain_can_deadlock_after_command_exit
